@@ -248,6 +248,22 @@ def check_decoding(ctx):
                               f"whole: err={base[0]} {len(base[1])} bytes; cut {[len(s) for s in segs][:4]}: err={r[0]} {len(r[1])} bytes")
                 break
     ctx.hit("decoding-streams")
+    # many concatenated members: the decoder's member cap is a limit like any other
+    import gzip
+    for n in (1030, 1100):
+        body = gzip.compress(b"a") * n
+        for response, head in ((False, b"POST /z HTTP/1.1\r\nHost: h\r\n"), (True, b"HTTP/1.1 200 OK\r\n")):
+            data = head + b"Content-Encoding: gzip\r\nContent-Length: %d\r\n\r\n" % len(body) + body
+            base = run_decoding(response, [data])
+            for segs in ([data[:len(data) // 2], data[len(data) // 2:]], [data[i:i + 4096] for i in range(0, len(data), 4096)]):
+                r = run_decoding(response, segs)
+                ctx.case(("zm", response, n, len(segs)))
+                if (r[0] is None) != (base[0] is None):
+                    ctx.violation(f"C03/decoding/member-cap-counted-per-read/{'resp' if response else 'req'}",
+                                  {"kind": "z", "response": response, "stream": hx(data), "cuts": [len(x) for x in segs], "members": True},
+                                  f"a gzip body of {n} members: whole read err={base[0]}, in {len(segs)} reads err={r[0]} ({len(r[1])} bytes delivered) — "
+                                  "the cap on concatenated members (MAX_DECOMPRESS_MEMBERS) is counted per decompress call")
+                    break
 
 
 def _check(ctx):
@@ -301,6 +317,10 @@ def _replay(ctx, case):
         for n in case["cuts"]:
             segs.append(data[pos:pos + n]); pos += n
         base, r = run_decoding(case["response"], [data]), run_decoding(case["response"], segs)
+        if case.get("members"):
+            if (r[0] is None) != (base[0] is None):
+                ctx.violation(f"C03/decoding/member-cap-counted-per-read/{'resp' if case['response'] else 'req'}", case, "the member cap is hit or not depending on the segmentation")
+            return
         if (r[0] is None) != (base[0] is None) or (r[0] is None and (r[1], r[2]) != (base[1], base[2])):
             ctx.violation(f"C03/decoding/segmentation-dependent/{'resp' if case['response'] else 'req'}", case, "decoded outcome depends on segmentation")
         return
